@@ -31,7 +31,7 @@ followed by the terminating condition.  Chunks may be empty (a `(0, nil)` read).
 structure Base where
   chunks : List Bytes
   term : Term
-deriving Repr
+deriving Repr, DecidableEq
 
 /-- one `Read` call: `(data, err)`; Go readers may return both. -/
 structure RRes where
